@@ -49,7 +49,7 @@ contract(
     },
     modular=True,
     pure=True,
-    props=["C08", "C13"],
+    props=["C08", "C13", "C09"],
 )
 
 contract(
@@ -59,7 +59,7 @@ contract(
     ensures=lambda c: c.result == hi_spec(c.old, c.new),
     modular=True,
     pure=True,
-    props=["C08"],
+    props=["C08", "C09"],
 )
 
 
@@ -99,6 +99,6 @@ contract(
     ensures=_entry_post,
     modular=False,
     pure=True,
-    props=["C08"],
+    props=["C08", "C09"],
     doc="classified exactly as a key-by-key comparison of hash and metadata dictates; restricting to hashes or metadata never hides a change",
 )
